@@ -25,6 +25,9 @@ f1_1:
   call f0_1
   call f1_0
   lea d_f1_1(%rip),%rax
+  mov wvsv1@GOTPCREL(%rip),%rax
+  mov wvsv1(%rip),%rax
+  mov wvsv1(%rip),%rax
   ret
 .section .data.d_f1_1,"aw",@progbits
 .globl d_f1_1
